@@ -8,7 +8,7 @@ type case = { scenario : string; srcpw : string; tgtpw : string; level : string;
 
 let id = "C19"
 let rule = "scenarios sync (NewDbSyncer + Sync: start banner, checkpoint load, PSYNC with AUTH, full sync through the worker pool, incremental sync, a dropped source \
-connection and its re-established PSYNC), restore, rump, dump, restart (a source refusing connections: the syncer restarts itself until its failure budget is used up and aborts) and cluster (a cluster source with no reachable master: topology re-discovery gives up after its retry budget and the run aborts; output captured through a side file), each with distinct random sentinel passwords for source and target (printable, with spaces, quotes, \
+connection and its re-established PSYNC), restore, rump, dump, restart (a source refusing connections: the syncer restarts itself until its failure budget is used up and aborts) tcluster (a cluster TARGET with no reachable start node, at debug and info level: the restore aborts), and cluster (a cluster source with no reachable master: topology re-discovery gives up after its retry budget and the run aborts; output captured through a side file), each with distinct random sentinel passwords for source and target (printable, with spaces, quotes, \
 percent signs, JSON-special characters; also empty) x log level error/info/debug; all bytes written through pkg/libs/log and the documents GetSafeOptions / GetExtraInfo \
 (JSON and %v) are searched for the sentinels; the run must really have authenticated with them (AUTH seen by the fakes); a tenth of the cases each with only the source or only the target password set; a third of the restore / sync / rump / dump scenarios against servers that REJECT the AUTH command (the failure path of authentication); non-trivial = at least one password non-empty; distinct by wire line"
 
@@ -39,6 +39,7 @@ let gen st tier =
   List.init n (fun i -> gen_case st (List.nth [ "sync"; "sync"; "restore"; "rump"; "dump"; "sync"; "restore+noauth"; "sync+noauth"; "rump+noauth"; "dump+noauth"; "sync"; "restore" ] (i mod 12)))
   @ List.init (if tier = "thorough" then 4 else 1) (fun _ -> { (gen_case st "cluster") with level = "error" })
   @ List.init (if tier = "thorough" then 4 else 1) (fun _ -> { (gen_case st "restart") with level = "error" })
+  @ List.init (if tier = "thorough" then 6 else 2) (fun i -> { (gen_case st "tcluster") with level = (if i mod 2 = 0 then "debug" else "info") })
 
 let corpus = [ { (gen_case (Random.State.make [| 19 |]) "sync") with srcpw = "SRC-sentinel-0001"; tgtpw = "TGT-sentinel-0002"; level = "info" };
                { (gen_case (Random.State.make [| 20 |]) "restore") with srcpw = ""; tgtpw = "TGT-sentinel-0003"; level = "info" };
@@ -59,14 +60,14 @@ let fail kind sig_ model impl detail = Fail { kind; sig_; model; impl; detail }
 let judge c obs =
   let impl = let s = String.concat " " obs in if String.length s > 1500 then String.sub s 0 1500 ^ "..." else s in
   let has_sub s sub = let n = String.length sub in let rec go i = i + n <= String.length s && (String.sub s i n = sub || go (i + 1)) in n > 0 && go 0 in
-  if base c = "cluster" || base c = "restart" then begin
+  if base c = "cluster" || base c = "restart" || base c = "tcluster" then begin
     (* the start path gives up (no master reachable) and exits: what it printed is in the side file *)
     match Srcgen.field obs "abort", Srcgen.field obs "side" with
     | Some _, Some h ->
         let out = string_of_hex h in
         if has_sub out c.srcpw then fail "oracle" (c.scenario ^ ":source-password-in-log") "no occurrence of either password" (String.escaped (if String.length out > 600 then String.sub out (String.length out - 600) 600 else out)) "the source password appears in the output of the aborting run"
         else if has_sub out c.tgtpw then fail "oracle" (c.scenario ^ ":target-password-in-log") "no occurrence of either password" (String.escaped (if String.length out > 600 then String.sub out (String.length out - 600) 600 else out)) "the target password appears in the output of the aborting run"
-        else if not (has_sub out (if c.scenario = "cluster" then "master" else "max amount of failures")) then fail "diff" "scenario-incomplete" "the give-up message" impl "the scenario did not reach its give-up message"
+        else if not (has_sub out (if c.scenario = "cluster" then "master" else if c.scenario = "tcluster" then "cluster" else "max amount of failures")) then fail "diff" "scenario-incomplete" "the give-up message" impl "the scenario did not reach its give-up message"
         else Agree
     | _ -> fail "diff" "scenario-incomplete" "abort with captured output" impl "the cluster scenario did not end in the expected abort"
   end else
